@@ -594,7 +594,7 @@ def run(ck: core.Check):
         ck.leanchecker(["SpoxModel.Props.C01"])
 
     rng = ck.rng
-    n_random = ck.pick(400, 6000)
+    n_random = ck.pick(360, 6000)
     n_styles = ck.pick(3, 4)
     n_bind = 3
     skel_uses = ck.pick(3, 6)
@@ -733,7 +733,7 @@ def run(ck: core.Check):
                 notes[nt.split(":")[0]] += 1
             nontrivial = d >= 1 or any(len(n["ty"]) > 1 or None in n["ins"] for n in prog["nodes"])
             ck.count((skey, style) if nontrivial else None)
-            if not res["fail"] and style == styles[0] and (pi % ck.pick(6, 4) == 0 or origin == "attr") and not origin.startswith("deep"):
+            if not res["fail"] and style == styles[0] and (pi % ck.pick(8, 4) == 0 or origin == "attr") and not origin.startswith("deep"):
                 try:
                     hf = run_history(prog, style, rseed, bindings)
                 except Exception as e:  # noqa: BLE001
